@@ -26,7 +26,10 @@ IDEMPOTENT_UNDER = {"min": {"unique", "sort"}, "max": {"unique", "sort"}, "any":
 def _kws(call, builder, env, skip=()):
     out = []
     for k in call.keywords:
-        if k.arg is None or k.arg in skip:
+        if k.arg in skip:
+            continue
+        if k.arg is None:
+            out.append(("**", builder.build(k.value, env)))
             continue
         out.append((k.arg, builder.build(k.value, env)))
     return tuple(sorted(out, key=lambda x: x[0]))
@@ -85,7 +88,13 @@ class PB(ExprBuilder):
             a, b = self.build(e.left, env), self.build(e.right, env)
             return ('call', 'floordiv' if isinstance(e.op, ast.FloorDiv) else 'mod', (a, b))
         if isinstance(e, ast.JoinedStr):
-            return ('call', 'fstr:' + ast.unparse(e), ())
+            parts = []
+            for v in e.values:
+                if isinstance(v, ast.Constant):
+                    parts.append(('sym', repr(v.value)))
+                elif isinstance(v, ast.FormattedValue):
+                    parts.append(self.build(v.value, env))
+            return ('call', 'fstr', tuple(parts))
         if isinstance(e, ast.Dict):
             ks = tuple(self.build(k, env) if k is not None else ('sym', '**') for k in e.keys)
             vs = tuple(self.build(v, env) for v in e.values)
@@ -103,6 +112,28 @@ class PB(ExprBuilder):
             # symbolic iterable: map(elt, iterable) with the loop variable bound to a generic element
             v = e.generators[0].target.id
             return ('call', 'map', (self.build(e.elt, dict(env, **{v: ('call', 'elem', (it,))})), it))
+        if isinstance(e, (ast.ListComp, ast.GeneratorExp)) and len(e.generators) == 1 and not e.generators[0].ifs and \
+                isinstance(e.generators[0].target, ast.Tuple) and all(isinstance(x, ast.Name) for x in e.generators[0].target.elts):
+            it = self.build(e.generators[0].iter, env)
+            el = ('call', 'elem', (it,))
+            sub = dict(env, **{x.id: ('call', 'getitem', (el, num(i))) for i, x in enumerate(e.generators[0].target.elts)})
+            return ('call', 'map', (self.build(e.elt, sub), it))
+        if isinstance(e, ast.DictComp) and len(e.generators) == 1 and not e.generators[0].ifs:
+            g = e.generators[0]
+            it = self.build(g.iter, env)
+            el = ('call', 'elem', (it,))
+            if isinstance(g.target, ast.Name):
+                sub = dict(env, **{g.target.id: el})
+            elif isinstance(g.target, ast.Tuple) and all(isinstance(x, ast.Name) for x in g.target.elts):
+                sub = dict(env, **{x.id: ('call', 'getitem', (el, num(i))) for i, x in enumerate(g.target.elts)})
+            else:
+                sub = None
+            if sub is not None:
+                k_, v_ = self.build(e.key, sub), self.build(e.value, sub)
+                # {k: v for k, v in pairs} is dict(pairs)
+                if k_ == ('call', 'getitem', (el, num(0))) and v_ == ('call', 'getitem', (el, num(1))):
+                    return ('call', 'py.dict', (it,))
+                return ('call', 'dictmap', (k_, v_, it))
         if isinstance(e, (ast.ListComp, ast.GeneratorExp, ast.SetComp, ast.DictComp, ast.Lambda)):
             return ('call', 'py:' + ast.unparse(e).replace(" ", ""), ())
         return super().build(e, env)
@@ -774,3 +805,14 @@ def wrapper_paths(fdef, call, argname, force=False):
 def kparse(txt, params):
     """rule notation with K_<param> standing for the kernel-written buffer of that parameter"""
     return parse(txt, {"K_" + p: ('sym', 'K.' + p) for p in params})
+
+
+def cond_truth(conds, want, env=None):
+    """truth value the recorded path conditions give to the (boolean) expression `want`: True / False / None"""
+    w = parse(want, env)
+    for c, t in conds:
+        while isinstance(c, tuple) and c and c[0] == 'not':
+            c, t = c[1], not t
+        if same(c, w):
+            return t
+    return None
